@@ -25,7 +25,7 @@ TIMEOUT = {"quick": 900, "thorough": 7000}
 
 
 def cases(tier, seed):
-    n = 160 if tier == "quick" else 12000
+    n = 160 if tier == "quick" else 36000
     out = [{"seed": seed, "idx": i, "kind": "closed_form"} for i in range(n)]
     out += [{"seed": seed, "idx": i, "kind": "order"} for i in range(2 * n)]
     # deep columns: the highest retained components decay by e^-40 .. e^-70 over the column (far beyond what the top node can
